@@ -374,5 +374,9 @@ func TestC09(t *testing.T) {
 	}
 	_ = ran
 
+	c09LongLengths(c, t)
+
+	c09Huge(c, t)
+
 	c09Concurrent(c, t)
 }
